@@ -88,6 +88,11 @@ impl Inflight {
         let _ = f.write_all(s.as_bytes());
     }
 
+    /// called on the thread that executes the worker's current run: from now on that thread's CPU clock measures it
+    pub fn running_on_this_thread(&self, worker: usize) {
+        self.started.lock().unwrap()[worker % MAX_WORKERS] = Some(Started::now());
+    }
+
     /// longest time any in-flight run has been executing (CPU seconds of its thread; see `Started::elapsed_s`)
     pub fn longest_inflight_s(&self) -> u64 {
         self.started.lock().unwrap().iter().flatten().map(|t| t.elapsed_s()).max().unwrap_or(0)
